@@ -275,6 +275,8 @@ fn hot_reloading_thread(
         } else {
             0
         };
+        #[cfg(assets_manager_verif)]
+        verif::schedule_point(0);
 
         loop {
             let msg = match cache_msg.try_recv() {
@@ -335,6 +337,8 @@ fn hot_reloading_thread(
         pending = 0;
 
         if ready == 1 {
+            #[cfg(assets_manager_verif)]
+            verif::schedule_point(1);
             match events.try_recv() {
                 Ok(msg) => {
                     cache.handle_events(msg, &mut unknown);
@@ -382,5 +386,24 @@ pub mod verif {
     /// See `records::recording_token`.
     pub fn recording_token() -> usize {
         records::recording_token()
+    }
+
+    type ScheduleHook = Arc<dyn Fn(usize) + Send + Sync>;
+    static SCHEDULE_HOOK: std::sync::Mutex<Option<ScheduleHook>> = std::sync::Mutex::new(None);
+
+    /// Installs (or removes) a function that hot-reloading threads call at
+    /// two points of their loop: `0` when they wake up, before they look at
+    /// their requests, and `1` before they take an event after the request
+    /// loop. A harness uses it to widen these windows (it changes timing
+    /// only).
+    pub fn set_schedule_hook(hook: Option<ScheduleHook>) {
+        *SCHEDULE_HOOK.lock().unwrap_or_else(|e| e.into_inner()) = hook;
+    }
+
+    pub(super) fn schedule_point(point: usize) {
+        let hook = SCHEDULE_HOOK.lock().unwrap_or_else(|e| e.into_inner()).clone();
+        if let Some(hook) = hook {
+            hook(point);
+        }
     }
 }
